@@ -283,14 +283,15 @@ def main():
                 except Exception as e:
                     R.fail(f"{PROP}/roundtrip/rejected", f"{PROP}:rejected:reglist", f"{t!r}: {e!r}", dict(line=t))
             # register lists and ranges
-            for text, n_members, first in (("{v0.2d, v1.2d}", 2, 0), ("{v4.4s - v7.4s}", 4, 4), ("{v0.d, v1.d}[1]", 2, 0), ("{z1.s}", 1, 1), ("{v30.16b-v31.16b}", 2, 30)):
+            for text, n_members, first in (("{v0.2d, v1.2d}", 2, 0), ("{v4.4s - v7.4s}", 4, 4), ("{v0.d, v1.d}[1]", 2, 0), ("{z1.s}", 1, 1), ("{v30.16b-v31.16b}", 2, 30),
+                                           ("{v8.4s - v11.4s}", 4, 8), ("{v9.2d-v10.2d}", 2, 9), ("{z7.s - z10.s}", 4, 7), ("{v30.4s - v1.4s}", 4, 30), ("{v31.8h-v0.8h}", 2, 31)):
                 t = LAYOUTS[lay]("ld1", [text, "[x1]"], CM)
                 R.case(t, sample=dict(line=t))
                 try:
                     f = parser.parse_line(t, 7)
                     regs_ = [o for o in f.operands if isinstance(o, RegisterOperand)]
                     names = [str(o.name) for o in regs_]
-                    if names != [str(first + i) for i in range(n_members)] or len(f.operands) != n_members + 1 or not isinstance(f.operands[-1], MemoryOperand):
+                    if names != [str((first + i) % 32) for i in range(n_members)] or len(f.operands) != n_members + 1 or not isinstance(f.operands[-1], MemoryOperand):
                         R.fail(f"{PROP}/roundtrip/reglist", f"{PROP}:reglist", f"{t!r}: members {names}, expected {[first + i for i in range(n_members)]} + memory operand", dict(line=t))
                     if "[1]" in text and any(str(o.index) != "1" for o in regs_):
                         R.fail(f"{PROP}/roundtrip/reglist-index", f"{PROP}:reglist-index", f"{t!r}: element index not carried to the members: {[o.index for o in regs_]}", dict(line=t))
@@ -337,7 +338,10 @@ def main():
         lines, kinds = [], []
         for _ in range(rnd.randint(1, 12)):
             k = rnd.choice(["inst", "inst", "comment", "label", "directive", "blank", "blank"])
-            lines.append(rnd.choice(inst if k == "inst" else other[k]))
+            l_ = rnd.choice(inst if k == "inst" else other[k])
+            if k != "blank":  # verbatim text includes leading / trailing blanks and tabs of the line
+                l_ = rnd.choice(["", "", "  ", "\t"]) + l_ + rnd.choice(["", "", " ", "\t", "  \t"])
+            lines.append(l_)
             kinds.append(k)
         text = "\n".join(lines)
         if rnd.random() < 0.5:
